@@ -19,7 +19,9 @@
 //!   e.to_sql() -> String                      fully parenthesised, TurDB + SQLite compatible
 //!   e.eval(&row, &schema) -> Result<V, EvalErr>          truth values are V::Bool / V::Null
 //!   e.eval_truth(&row, &schema) -> Result<Option<bool>, EvalErr>
-//!   e.children() / e.bool_depth() / e.columns() / e.has_agg()
+//!   e.eval_env(&Env{db, schema, row, group, outer})      the full evaluator (subqueries, aggregates)
+//!   e.check_names(&Scope{schema, outer}, &db)            static name resolution (what "prepare" reports)
+//!   e.children() / e.bool_depth() / e.columns() / e.has_agg() / e.rename_col(table, old, new)
 //!   value level: sql_cmp total_cmp total_cmp_rows like_match and3 or3 not3 cmp3 in3 arith_v truth
 //!   tolerances : loosely_equal loosely_equal_bool rows_loosely_equal bags_loosely_equal bags_equal_by canon
 //!   enumerators: atoms(&schema,&Consts) core_atoms(&schema,&Consts) trees(&atoms,depth) trees_count(n,depth)
@@ -32,7 +34,7 @@
 //!             .order_by(vec![OrderKey::asc(e), OrderKey::ordinal(2,true)]) .limit(n) .offset(n)
 //!             From::table("t") From::table_as("t","x") From::derived(q,"d") f.join(kind, g, Some(on))
 //!   q.to_sql() -> String
-//!   q.eval(&Database) -> Result<QueryResult, EvalErr>
+//!   q.eval(&Database) -> Result<QueryResult, EvalErr>     (resolves all names first: q.check_names(&db, None))
 //!   Database{tables: BTreeMap<String, Table{columns: Vec<(String,Ty)>, rows: Vec<Row>}>}
 //!   QueryResult{columns, rows (ONE valid answer), full, keys, desc, offset, limit}
 //!     .accepts(&observed) / .accepts_loose(&observed) / .accepts_by(&observed, eq) -> Result<(), String>
@@ -126,8 +128,28 @@
 //!   explicit select-list alias, (2) an expression equal to a select-list expression, (3) any expression over
 //!   the source row (not with DISTINCT).  The model's `rows` are ONE valid answer; `accepts*` decides validity
 //!   of any observed list (ties in any order, tie-cutting windows, LIMIT without ORDER BY = any sub-bag).
+//! * Names are resolved statically before any row is looked at (`check_names`): an unknown table or column
+//!   is an error even on an empty table, in queries and in DML (WHERE, SET, RETURNING, CHECK).
 //! * `rel`: see the module documentation of `rel` (constraint timing, error classification order,
 //!   AUTO_INCREMENT, TRUNCATE, DDL dependencies, type coercion).
+//!
+//! # What `to_sql` avoids because of TurDB's parser / front end (probed with `probe`)
+//!
+//! Every construct above is accepted by TurDB's parser in the spelling `to_sql` emits (the catalogue is
+//! `tests/sql_unit.rs::dump_sql_catalogue`).  Spellings chosen on purpose:
+//! * `-9223372036854775808` reads as NULL ⇒ `i64::MIN` is rendered `(-9223372036854775807 - 1)`; other
+//!   negative literals are rendered `(-1)`, except `DEFAULT -1` (a parenthesised default is accepted but
+//!   ignored; note that TurDB at this commit also reads NULL for a negative DEFAULT).
+//! * `NOT (EXISTS (…))` trips the known NOT defect ⇒ `Not(Exists(q))` is rendered `(NOT EXISTS (…))`.
+//! * `x IN ()` does not parse ⇒ never build an empty IN list for TurDB.
+//! * `OFFSET n` without LIMIT is not portable ⇒ rendered `LIMIT 9223372036854775807 OFFSET n`.
+//! * The operands of a set operation cannot be parenthesised (SQLite) and precedence differs between
+//!   dialects ⇒ a nested set operation is rendered as `SELECT * FROM (…) AS _sN`.
+//! * `INSERT … VALUES` accepts only literals in TurDB ("expected literal expression") ⇒ use
+//!   `Insert::literals`; the keyword `DEFAULT` inside VALUES is not accepted either (omit the column).
+//! * An integer literal stored into a REAL/FLOAT column is stored as raw bits by TurDB (`5` reads back as
+//!   `2.5e-323`) ⇒ render float-column values as `V::Float` (the model's `coerce` does this on its side).
+//! * `SAVEPOINT` outside a transaction is an error in TurDB too ("no transaction in progress").
 pub mod expr;
 pub mod query;
 pub mod rel;
